@@ -419,7 +419,11 @@ def rollback(cpu, mode, n):
         i0 = d.iclass(pre)
         before_attrs = set(vars(i0)) if hasattr(i0, "__dict__") else set()
 
+        extra = V.bytes("x", 2)
+
         def hook(obj, **kargs):
+            # like the variable-length setup functions, consume more bytes before giving up
+            obj.bytes += extra
             raise AC.InstructionError(obj)
         old_hook, old_pre = s.hook, s.precond
         s.hook = hook
@@ -427,17 +431,17 @@ def rollback(cpu, mode, n):
         try:
             try:
                 s.decode(bs, 1, i=i0, iclass=d.iclass)
-                return {"C11 rollback: InstructionError propagates": False}
+                return {"rollback: InstructionError propagates": False}
             except AC.DecodeError:
-                return {"C11 rollback: rejected before touching the pending instruction": Eq(i0.bytes, pre)}
+                return {"rollback: rejected before touching the pending instruction": Eq(i0.bytes, pre)}
             except AC.InstructionError:
                 pass
         finally:
             s.hook, s.precond = old_hook, old_pre
-        post = {"C11 rollback: pending bytes restored": Eq(i0.bytes, pre),
-                "C11 rollback: attributes set from the format removed": all(not hasattr(i0, k) for k in s.iattr)}
+        post = {"rollback: pending bytes restored (also when the setup function had appended bytes)": Eq(i0.bytes, pre),
+                "rollback: attributes set from the format removed": all(not hasattr(i0, k) for k in s.iattr)}
         return post
-    return Obligation("X/rollback/%s/m%d/%04d" % (".".join(cpu.split(".")[2:]), mode, n), body, ["C11"],
+    return Obligation("X/rollback/%s/m%d/%04d" % (".".join(cpu.split(".")[2:]), mode, n), body, ["C11", "C05"],
                       ["amoco.arch.core:ispec.decode (rollback on InstructionError)"], mode="bv", W=8 * (blen + 4) + 16,
                       level="P", samples=2, index_limit=300, maxpaths=40000)
 
@@ -486,11 +490,14 @@ def obligations(prop, tier, seed):
                             o = no_memory(cpu=mn, mode=mode, L=L, b0=b0, entry=entry)
                             o.weight = 5 + nspec // (5 * len(slices))
                             obs.append(o)
-    if prop == "C11":
-        obs.append(hook_assumption())
+    if prop in ("C11", "C05"):
+        if prop == "C11":
+            obs.append(hook_assumption())
         from contracts.decoder import all_specs
         specs = all_specs()
         pick = specs if tier == "thorough" else rng.sample(specs, 300)
         for (mn, mode, n, s) in pick:
-            obs.append(rollback(cpu=mn, mode=mode, n=n))
+            o = rollback(cpu=mn, mode=mode, n=n)
+            o.optional = True     # seeded sample; bit-string fields may exceed the enumeration limit
+            obs.append(o)
     return [o for o in obs if prop in o.props]
